@@ -89,7 +89,7 @@ func consistentPublicMaterial(parties []uint16, stored map[uint16][]byte) string
 }
 
 func unitC01direct(e common.Env, p *common.Part) {
-	p.Rule = "BLS key generation with directly wired TBLS backends (per-link FIFO, PRNG delivery order) for all 2<=t<=n<=6 (thorough 7), party identifier sets 1..n, non-contiguous and PRNG (<256, incl. 0); then fresh signers re-created from the serialised stored data only: every subset of size >= t signs digests {empty, 1 byte, 32 random bytes, 32 bytes with leading zeros, 1 KiB}, signatures aggregated in PRNG order and verified under the threshold public key a PRNG-chosen party reports; distinct key = (n, t, id set, schedule seed); non-trivial when key generation completed and at least one aggregate was verified"
+	p.Rule = "BLS key generation with directly wired TBLS backends (per-link FIFO, PRNG delivery order) for all 2<=t<=n<=6 (thorough 7), party identifier sets 1..n, non-contiguous and PRNG (<256, incl. 0); then fresh signers re-created from the serialised stored data only: every subset of size >= t signs digests {empty, 1 byte, 32 random bytes, 32 bytes with leading zeros, 1 KiB}, signatures aggregated in PRNG order and verified under the threshold public key a PRNG-chosen party reports; every second case: a second key generation among the same parties, and signer objects that still hold the first key's share (loaded from stored data, or left by the first KeyGen) are loaded with the second key's stored data and must sign under the second key; distinct key = (n, t, id set, schedule seed); non-trivial when key generation completed and at least one aggregate was verified"
 	maxN := e.Pick(6, 7)
 	reps := e.Pick(4, 60)
 	idx := 0
@@ -131,6 +131,72 @@ func unitC01direct(e common.Env, p *common.Part) {
 						digs = digs[1:3]
 					}
 					viol, checked = verifyAllSubsetsBLS(rng, ids, t, d.outs, digs, p)
+				}
+				if viol == "" && r%2 == 0 {
+					// signer objects that are USED AGAIN: a second key generation among the same parties; objects that hold the first
+					// key's share (loaded from stored data, or left by the first KeyGen itself) are loaded with the second key's stored
+					// data and must then sign under the second key
+					d2 := newDrun(scheme{Name: "bls"}, ids, t, rng)
+					ctx2, cancel2 := context.WithTimeout(context.Background(), 60*time.Second)
+					if d2.run(ctx2, cancel2, ids, 60*time.Second) && len(d2.panics) == 0 && consistentPublicMaterial(ids, d2.outs) == "" {
+						for variant, mk := range []func(id uint16) (tss.Signer, error){
+							func(id uint16) (tss.Signer, error) {
+								return (scheme{Name: "bls"}).signerFrom(id, ids, t, d.outs[id]) // Init + SetShareData(first key)
+							},
+							func(id uint16) (tss.Signer, error) {
+								sg, ok := d.kgs[id].(tss.Signer) // the object that ran the first KeyGen
+								if !ok {
+									return nil, fmt.Errorf("not a signer")
+								}
+								return sg, nil
+							},
+						} {
+							var sigs [][]byte
+							digest := []byte("digest-for-the-second-key-0123456789")
+							bad := ""
+							for _, id := range ids[:t] {
+								sg, err := mk(id)
+								if err != nil {
+									bad = "skip"
+									break
+								}
+								if err := sg.SetShareData(d2.outs[id]); err != nil {
+									bad = fmt.Sprintf("signers: a signer object that held another key's share refused the stored data of a later key generation at party %d: %v", id, err)
+									break
+								}
+								sig, err := sg.Sign(context.Background(), digest)
+								if err != nil {
+									bad = fmt.Sprintf("signers: Sign(%d) on a re-used object: %v", id, err)
+									break
+								}
+								sigs = append(sigs, sig)
+							}
+							if bad == "skip" {
+								continue
+							}
+							if bad == "" {
+								rep, err := (scheme{Name: "bls"}).signerFrom(ids[0], ids, t, d2.outs[ids[0]])
+								if err == nil {
+									if pp, err := rep.ThresholdPK(); err == nil {
+										var v bls.Verifier
+										if v.Init(pp) == nil {
+											if agg, err := v.AggregateSignatures(sigs, ids[:t]); err != nil {
+												bad = fmt.Sprintf("signers %v on re-used objects (variant %d): AggregateSignatures: %v", ids[:t], variant, err)
+											} else if err := v.Verify(digest, agg); err != nil {
+												bad = fmt.Sprintf("signers %v: signer objects that held the share of an earlier key (variant %d: %s) and were then loaded with the stored data of a second key generation produce an aggregate that does not verify under the second key: %v", ids[:t], variant, []string{"loaded from stored data", "left by KeyGen"}[variant], err)
+											} else {
+												checked++
+												p.Count("reused_signer_aggregates", 1)
+											}
+										}
+									}
+								}
+							}
+							if bad != "" && viol == "" {
+								viol = bad
+							}
+						}
+					}
 				}
 				p.Case(key, checked > 0)
 				p.Count("keygens", 1)
